@@ -269,5 +269,7 @@ def run(chk, ctx):
     r4(chk, ctx, st)
     r5(chk, ctx, st)
     r6(chk, ctx, st)
+    from . import round3
+    round3.json_write_through(chk, ctx)
     chk.assume("redis, pottery (RedisDict/RedisList) and collections.abc.MutableMapping behave as documented")
     chk.assume("Redis client-side caching sends an invalidation only for keys read through the tracked connection, once")
